@@ -109,6 +109,9 @@ func (ts *TypeSystem) ReprKind(t *Type) model.Kind {
 	return model.KAbsent // any
 }
 
+// Serial is the name field is written under in a map representation.
+func (t *Type) Serial(field string) string { return t.serial(field) }
+
 func (t *Type) serial(field string) string {
 	if s, ok := t.Renames[field]; ok {
 		return s
